@@ -105,9 +105,10 @@ class Prop:
                    "in-place mutation of a container at a '.' link is not asserted for the legacy "
                    "side (its own documentation says such an event 'may' be reported)",
                    "agreement is boolean (called / not called); counts are C08's business",
-                   "legacy handlers take 0, 3 or 4 arguments: traits itself rejects 1- and "
-                   "2-argument handlers for changes of an intermediate link (TraitError "
-                   "'handler signature is incompatible')"]
+                   "legacy handlers take 0, 3 or 4 arguments; 1- and 2-argument handlers only for a "
+                   "single Instance link or a single quiet link: elsewhere traits itself rejects "
+                   "them for changes of an intermediate link (TraitError 'handler signature is "
+                   "incompatible')"]
 
     def gen(self, seed):
         c = stream(seed, "config")
@@ -119,6 +120,14 @@ class Prop:
                  for _ in range(nlinks)]
         nops = deep(c, [4, 8, 12, 18, 24, 30], [45, 60])
         arity = c.choice([0, 3, 4, 4])
+        if (nlinks == 1 and (steps[0][0] == "child" or not steps[0][1]) and not eq_nodes
+                and c.random() < 0.4):
+            # (new) and (name, new) handlers: accepted by traits for a single Instance
+            # link and for a single quiet link (elsewhere it rejects them itself); not in
+            # value-object worlds: these two signatures report a '.' link re-assigned an
+            # equal but distinct object, the other signatures and observe do not
+            # (observation O4: the statement does not say which is right)
+            arity = c.choice([1, 2])
         remove_at = c.choice([None, None, None, c.randrange(nops + 1)])
         ops = []
         while len(ops) < nops:
@@ -132,7 +141,8 @@ class Prop:
             if x < 0.12:
                 # 'del node.trait': the link falls back to its default
                 ops.append({"k": "del_attr", "o": 0 if r.random() < 0.35 else r.randrange(12),
-                            "name": r.choice(["child", "children", "table"]
+                            "name": r.choice((["child"] if arity not in (1, 2) else [])
+                                             + ["children", "table"]
                                              + ([] if eq_nodes else ["group"]))})
                 continue
             op = G.gen_graph_op(r, 4)
@@ -145,11 +155,15 @@ class Prop:
             if op["k"] in ("set", "set_group") and eq_nodes:
                 continue
             op = freshen(op)
+            if arity in (1, 2) and op["k"] == "set_child" and "none" in op.get("v", {}):
+                # (name, new) handlers get the value of the final attribute: traits calls a
+                # link set to None 'incompatible with a change to an intermediate trait'
+                op["v"] = {"fresh": 1}
             op["o"] = 0 if r.random() < 0.35 else r.randrange(12)
             ops.append(op)
         return {"prop": ID, "seed": seed,
                 "config": {"steps": steps, "arity": arity, "remove_at": remove_at,
-                           "eq_nodes": eq_nodes},
+                           "eq_nodes": eq_nodes, "small_values": c.random() < 0.5},
                 "ops": ops}
 
     def execute(self, trace, env):
@@ -246,6 +260,11 @@ class Prop:
                     m = world.model(uid)
                     del L[:], O[:]
                     v = world.fresh_value()
+                    if cfg.get("small_values"):
+                        # few distinct values: a replaced object and its replacement
+                        # often hold the same final value
+                        cur = m.value if isinstance(m.value, int) else 0
+                        v = 0 if cur != 0 else 1
                     _, e = sut(setattr, n, "value", v)
                     if e is not None:
                         raise Violation("C16.probe-raised", "N%d.value = %d raised %r"
